@@ -508,7 +508,7 @@ def family_align(tier):
                         specs.append(fspec(k, rows, cols, kk, layout=c % 7))
                     for union in (True, False):
                         for index_mode in ('none', 'explicit', 'auto'):
-                            for fillk in (('nan', 'str') if tier == 'quick' else ('nan', 'none', 'zero', 'str')):
+                            for fillk in ('nan', 'none', 'zero', 'str'):
                                 c += 1
                                 yield specs, ('frame_concat', axis, union, index_mode, 'explicit' if c % 4 == 0 else 'none', fillk, c % 3 == 0, c % 5 == 1)
                         for keys_mode in ('unique', 'dup'):
@@ -527,9 +527,6 @@ def family_layout(tier):
     for (k0, l0) in variants:
         for (k1, l1) in variants:
             for rel, other1 in relations.items():
-                if tier == 'quick' and rel != 'same' and (c + l0 + l1) % 3:
-                    c += 1
-                    continue
                 c += 1
                 for axis in (0, 1):
                     def mk(cid, kinds, lay, oth, catl):
